@@ -3,6 +3,7 @@ use crate::common::*;
 use crate::engine::*;
 use crate::refmodel::{self as rf, RefSuite};
 use crate::registry::*;
+use blsful::*;
 use bls12_381_plus::{G1Affine, G2Affine};
 use serde::{Deserialize, Serialize};
 
@@ -469,8 +470,155 @@ impl Model for M16 {
     }
 }
 
+// ---- share payloads whose bad component is annihilated by the recombination itself ---------------------------
+//
+// A payload "honest point + T" with T of small prime order q (q divides the cofactor) at the identifier whose Lagrange
+// coefficient is q: the recombined value is exactly the honest one, so a subgroup check on the result alone sees nothing.
+// The property demands an error because a payload is not a subgroup point.
+
+#[derive(Copy, Clone, Debug, PartialEq, Eq, Hash, Serialize, Deserialize)]
+pub struct LSt {
+    /// 0 SignatureShare (Basic), 1 SignatureShare (ProofOfPossession), 2 PublicKeyShare, 3 SignDecryptionShare, 4 ElGamalDecryptionShare,
+    /// 5 trait core_combine_signature_shares, 6 trait core_combine_public_key_shares
+    kind: u8,
+    q: u32,
+    /// false: the honest pair (control, must recombine)
+    bad: bool,
+}
+
+pub struct M16L<C: Suite> {
+    _c: std::marker::PhantomData<C>,
+}
+
+impl<C: Suite> Model for M16L<C> {
+    type State = Option<LSt>;
+    type Action = LSt;
+    fn name(&self) -> String {
+        format!("c16-annihilated-small-order-payload/{}", C::G)
+    }
+    fn init(&self) -> Vec<Option<LSt>> {
+        vec![None]
+    }
+    fn actions(&self, st: &Option<LSt>) -> Vec<LSt> {
+        if st.is_some() {
+            return vec![];
+        }
+        let mut v = vec![];
+        let sig_len = <C::R as rf::RefSuite>::SIG_LEN;
+        for kind in 0..7u8 {
+            let len = if matches!(kind, 0 | 1 | 5) { sig_len } else { 144 - sig_len };
+            for q in if len == 48 { [3u32, 11] } else { [13u32, 23] } {
+                for bad in [false, true] {
+                    v.push(LSt { kind, q, bad });
+                }
+            }
+        }
+        v
+    }
+    fn step(&self, _s: &Option<LSt>, a: &LSt) -> Option<Option<LSt>> {
+        Some(Some(*a))
+    }
+    fn describe(&self, st: &Option<LSt>) -> String {
+        match st {
+            None => "root".into(),
+            Some(s) => format!(
+                "{} recombination kind {} of the shares with identifiers {} and {}{}",
+                C::G,
+                ["SignatureShare/Basic", "SignatureShare/ProofOfPossession", "PublicKeyShare", "SignDecryptionShare", "ElGamalDecryptionShare", "core_combine_signature_shares", "core_combine_public_key_shares"][s.kind as usize],
+                s.q - 1,
+                s.q,
+                if s.bad { format!(", the first payload plus a point of order {}", s.q) } else { " (honest)".into() }
+            ),
+        }
+    }
+    fn required_outcomes(&self) -> Vec<String> {
+        vec!["annihilated:honest-recombines".into(), "annihilated:bad-payload-is-error".into()]
+    }
+    fn check(&self, st: &Option<LSt>, o: &mut Obs) {
+        use blsful::vsss_rs::Share;
+        use rand_core::SeedableRng;
+        let Some(st) = st else { return };
+        o.nontrivial = true;
+        let g = C::G;
+        let q = st.q as usize;
+        let sk = SecretKey::<C>::from_hash(b"c16 annihilated payload");
+        let pk = sk.public_key();
+        let msg = b"c16 message".to_vec();
+        let shares = sk.split_with_rng(2, q, rand_chacha::ChaCha20Rng::from_seed([16u8; 32])).expect("split");
+        let pair: Vec<&SecretKeyShare<C>> = shares.iter().filter(|s| s.0.identifier() as usize == q - 1 || s.0.identifier() as usize == q).collect();
+        assert_eq!(pair.len(), 2);
+        let perturb = |payload: &[u8]| -> Vec<u8> {
+            if st.bad {
+                rf::small_order_perturbed(payload, st.q).expect("a point of small order")
+            } else {
+                payload.to_vec()
+            }
+        };
+        let sc = pk.sign_crypt(SignatureSchemes::Basic, &msg);
+        let eg = pk.encrypt_key_el_gamal(&sk).expect("elgamal");
+        // Ok(true) = recombined to the honest value, Ok(false) = recombined to something else, Err = refused
+        let r: Result<Result<bool, String>, String> = guard(|| match st.kind {
+            0 | 1 | 5 => {
+                let scheme = if st.kind == 1 { SignatureSchemes::ProofOfPossession } else { SignatureSchemes::Basic };
+                let whole = sk.sign(scheme, &msg).unwrap();
+                let mut parts: Vec<SignatureShare<C>> = pair.iter().map(|s| s.sign(scheme, &msg).unwrap()).collect();
+                let raw0 = *parts[0].as_raw_value();
+                let bad = raw_sig_share::<C>(raw0.identifier(), &perturb(&raw0.value_vec()));
+                parts[0] = match scheme {
+                    SignatureSchemes::Basic => SignatureShare::Basic(bad),
+                    _ => SignatureShare::ProofOfPossession(bad),
+                };
+                if st.kind == 5 {
+                    let raws: Vec<_> = parts.iter().map(|p| *p.as_raw_value()).collect();
+                    <C as BlsSignatureCore>::core_combine_signature_shares(&raws).map(|x| x == *whole.as_raw_value()).map_err(|e| e.to_string())
+                } else {
+                    Signature::<C>::from_shares(&parts).map(|x| x == whole).map_err(|e| e.to_string())
+                }
+            }
+            2 | 6 => {
+                let mut parts: Vec<PublicKeyShare<C>> = pair.iter().map(|s| s.public_key().unwrap()).collect();
+                parts[0] = PublicKeyShare(raw_pk_share::<C>(parts[0].0.identifier(), &perturb(&parts[0].0.value_vec())));
+                if st.kind == 6 {
+                    let raws: Vec<_> = parts.iter().map(|p| p.0).collect();
+                    <C as BlsSignatureCore>::core_combine_public_key_shares(&raws).map(|x| x == pk.0).map_err(|e| e.to_string())
+                } else {
+                    PublicKey::<C>::from_shares(&parts).map(|x| x == pk).map_err(|e| e.to_string())
+                }
+            }
+            3 => {
+                let mut parts: Vec<SignDecryptionShare<C>> = pair.iter().map(|s| sc.create_decryption_share(s).unwrap()).collect();
+                parts[0] = SignDecryptionShare(raw_pk_share::<C>(parts[0].0.identifier(), &perturb(&parts[0].0.value_vec())));
+                SignCryptDecryptionKey::<C>::from_shares(&parts).map(|k| Option::<Vec<u8>>::from(k.decrypt(&sc)).as_deref() == Some(msg.as_slice())).map_err(|e| e.to_string())
+            }
+            _ => {
+                let mut parts: Vec<ElGamalDecryptionShare<C>> = pair.iter().map(|s| ElGamalDecryptionShare(<C as BlsSignatureCore>::public_key_share_with_generator(&s.0, eg.c1).unwrap())).collect();
+                parts[0] = ElGamalDecryptionShare(raw_pk_share::<C>(parts[0].0.identifier(), &perturb(&parts[0].0.value_vec())));
+                let want = eg.decrypt(&sk);
+                ElGamalDecryptionKey::<C>::from_shares(&parts).map(|k| k.decrypt(&eg) == want).map_err(|e| e.to_string())
+            }
+        });
+        o.calls(1);
+        let key = format!("C16:annihilated-small-order-payload:{}:kind{}:q{}", g, st.kind, st.q);
+        match (st.bad, r) {
+            (_, Err(p)) => o.expect(&format!("{}:panic", key), false, "returns", &p),
+            (false, Ok(r)) => {
+                o.outcome(if r == Ok(true) { "annihilated:honest-recombines" } else { "annihilated:honest-fails" });
+                o.expect(&format!("{}:honest-control", key), r == Ok(true), "the whole key value", &format!("{:?}", r));
+            }
+            (true, Ok(r)) => {
+                o.outcome(if r.is_err() { "annihilated:bad-payload-is-error" } else { "annihilated:bad-payload-recombines" });
+                o.expect(&key, r.is_err(), "Err (a payload is not a subgroup point)", &format!("{:?}", r));
+            }
+        }
+    }
+}
+
 pub fn models(tier: Tier, seed: u64) -> Vec<Box<dyn DynModel>> {
-    vec![bounded(M16::new(tier, seed), 1)]
+    vec![
+        bounded(M16::new(tier, seed), 1),
+        bounded(M16L::<Bls12381G1Impl> { _c: std::marker::PhantomData }, 1),
+        bounded(M16L::<Bls12381G2Impl> { _c: std::marker::PhantomData }, 1),
+    ]
 }
 
 pub fn describe(tier: Tier, r: &mut Report) {
